@@ -136,13 +136,15 @@ class CRAdapter(Adapter):
     symbolic = True
 
     def datasets(self, mk):
-        return {"f1": np.array([[mk(f"xa{i}{j}", None, None) for j in range(3)] for i in range(3)], dtype=object),
-                "f2": np.array([[1.0, 2.0, 0.5], [0.0, -1.0, 2.0], [3.0, 0.5, 1.0]])}
+        # two DataFrames whose sensitive column (addressed by name) sits at different positions
+        d1 = pd.DataFrame({c: [mk(f"xa{i}{c}", None, None) for i in range(3)] for c in ("s", "a", "b")}, dtype=object)
+        d2 = pd.DataFrame({"a": [2.0, -1.0, 0.5], "b": [0.5, 2.0, 1.0], "s": [1.0, 0.0, 3.0]})
+        return {"f1": d1, "f2": d2}
 
     def make(self):
         from fairlearn.preprocessing import CorrelationRemover
 
-        return CorrelationRemover(sensitive_feature_ids=[0], alpha=0.5)
+        return CorrelationRemover(sensitive_feature_ids=["s"], alpha=0.5)
 
     def fit(self, est, D):
         return est.fit(D)
